@@ -24,6 +24,12 @@ pub fn generate_queries(
         .collect();
 
     samples.sort();
+    #[cfg(swiftness_verif)]
+    swiftness_transcript::verif::ev("queries")
+        .f("n", &n_samples)
+        .f("bound", &query_upper_bound)
+        .fs("out", samples.iter())
+        .emit();
     samples
 }
 
@@ -41,5 +47,12 @@ pub fn queries_to_points(queries: &[Felt], stark_domains: &StarkDomains) -> Vec<
         let index: u64 = (query * shift).to_bigint().try_into().unwrap();
         points.push(FIELD_GENERATOR * stark_domains.eval_generator.pow(index.reverse_bits()))
     }
+    #[cfg(swiftness_verif)]
+    swiftness_transcript::verif::ev("points")
+        .f("log_eval", &stark_domains.log_eval_domain_size)
+        .f("gen", &stark_domains.eval_generator)
+        .fs("q", queries.iter())
+        .fs("pts", points.iter())
+        .emit();
     points
 }
